@@ -172,7 +172,7 @@ def worker(ctx, prop):
                 # work-bound class: long texts (the H1 bound scales with the slot count; the harness checks it per pass)
                 txt = (txt * (ctx.n(512, 4096) // len(txt) + 1))[:ctx.n(512, 4096)]
             case = dict(kind='shipped', font=f, text=txt, dir=data.draw(st.integers(0, 7)), enc=data.draw(st.sampled_from([1, 2, 4])),
-                        ppm=data.draw(st.sampled_from([0.0, 0.0, 14.0])), check_gid=True)
+                        ppm=data.draw(st.sampled_from([0.0, 0.0, 14.0, -15.0])), check_gid=True)
             r, other = judge(drv, case, prop, ctx)
             count(case, r, other)
         return t
